@@ -191,6 +191,9 @@ def check_case(case):
         app.logger.disabled = True
         c = app.test_client()
         iid = json.loads(c.post("/start-instance").data)["instance_uuid"]
+        if case.get("spare"):
+            # a sibling instance on which no session has been begun (yet)
+            spare = json.loads(c.post("/start-instance").data)["instance_uuid"]
 
         def begin(equations, bs):
             body = {"scenario_managers": managers, "scenarios": [SC], "equations": equations}
@@ -304,7 +307,7 @@ def case_strategy():
                    st.just(["save"]))
     return st.fixed_dictionaries({
         "start": st.sampled_from(["0", "1", "2.5", "8", "9.5", "98"]), "dt": st.sampled_from(["1", "0.5", "0.25", "0.1"]),
-        "two": st.booleans(), "begin_settings": bset,
+        "two": st.booleans(), "begin_settings": bset, "spare": st.sampled_from([False, False, True]),
         "ops": st.lists(op, min_size=1, max_size=7),
         "equations": eqs,
         "compress": st.booleans(), "adapter": st.sampled_from(["file", "memory"]), "path": st.sampled_from(["instance", "server"])}).map(
@@ -317,7 +320,7 @@ def _body(ctx):
         ops = _ops(case)
         nt = case["start"] != "1" or case["dt"] != "1" or any(o[0] != "step" or o[1] is None or o[1] == {} for o in ops)
         ctx.case(case, nontrivial=nt, labels=["compress:%s" % case["compress"], "adapter:" + case["adapter"], "path:" + case["path"],
-                                              "managers:%d" % len(case.get("managers", [SM]))] + sorted(set("op:" + o[0] for o in ops)) +
+                                              "managers:%d" % len(case.get("managers", [SM]))] + (["with-sessionless-sibling"] if case.get("spare") else []) + sorted(set("op:" + o[0] for o in ops)) +
                  (["ends-with-begin"] if ops[-1][0] == "begin" else []) + (["begin-settings"] if case.get("begin_settings") else []), key=case)
         ctx.report(vs)
     return body
